@@ -164,7 +164,20 @@ async fn controller(
                 // does, through its FusedFuture interface: `select!` skips a
                 // branch that claims to be terminated, and gives up only when
                 // every branch does.
-                let r = if i % 2 == 1 {
+                let r = if i % 3 == 2 {
+                    // Every third waiter gives up: it polls for a while and is
+                    // then dropped (a timeout around it expired, it lost a
+                    // select!).  That must not change what the others see.
+                    let patience = ms(50 + at % 450);
+                    match tokio::time::timeout(patience, fut).await {
+                        Ok(r) => Some(r),
+                        Err(_) => {
+                            // b = 3: gave up of its own accord
+                            w.log(Ev::WaiterReleased, NOCONN, 0, i as u64, 3);
+                            return;
+                        }
+                    }
+                } else if i % 2 == 1 {
                     use futures::FutureExt;
                     let mut fut = fut;
                     let mut ticks = 0u32;
